@@ -25,17 +25,21 @@ SWITCH = {
     "F1": "ackOnReceipt", "F2": "noLostDespawnHidden", "F3": "staleRemovalOnDespawn",
     "F4": "periodicAckSwallow", "F8": "refBeforeSpawnUnmarked", "F9": "removalOverwrite",
     "F11": "emptyMutateWithGraphs", "F14": "whiteReAddForgetsLost", "F18": "periodicBumpSwallow",
-    "F19": "ackDiscarded",
+    "F19": "ackDiscarded", "F21": "lateJoinerMissesEmpty",
 }
 ALL_SWITCHES = ["removalOverwrite", "staleRemovalOnDespawn", "noLostDespawnHidden", "whiteReAddForgetsLost",
-                "ackOnReceipt", "periodicAckSwallow", "periodicBumpSwallow", "ackDiscarded",
-                "emptyMutateWithGraphs", "refBeforeSpawnUnmarked", "seedLeakHidden"]
+                "ackOnReceipt", "periodicAckSwallow", "periodicBumpSwallow", "ackDiscarded", "lateJoinerMissesEmpty",
+                "emptyMutateWithGraphs", "refBeforeSpawnUnmarked", "seedLeakHidden", "seedEvNoQueue", "seedEvNoExclude",
+                "seedEvUnauth"]
 
 # monitors (VIOL tags of CoreTrace) -> properties
 MONITOR_PROPS = {
     "C01": ["C01"], "panic": ["C01", "C09"], "C02": ["C02"], "C02mono": ["C02"],
     "C03": ["C03"], "C03mono": ["C03"], "C08data": ["C08"], "C08query": ["C08"], "C11rest": ["C11"],
     "C10atomic": ["C10"], "C10size": ["C10"], "C16": ["C16"],
+    "C04stamp": ["C04"], "C04delivery": ["C04"],
+    "C05recipients": ["C05"], "C05delivery": ["C05"], "C05complete": ["C05"], "C05server": ["C05"],
+    "C05serverComplete": ["C05"], "C07unauth": ["C07"],
 }
 
 # conformance fields (DIFF kind.field) -> properties, from the properties' own anchors (DESIGN 12.2)
@@ -58,6 +62,8 @@ FIELD_PROPS = {
     "cli.buf": ["C01", "C02"],
     "cli.status": ["C09"], "cli.panicked": ["C01", "C09"],
     "srv.world": [], "srv.tick": [], "srv.frame": [], "srv.running": [], "srv.now": [],
+    "ev.net.sev": ["C04", "C05", "C07"], "ev.net.cev": ["C05"], "ev.net.rxSev": [], "ev.net.srxCev": [],
+    "delivered.client": ["C04", "C05"], "delivered.server": ["C05"],
     "enabled": [],
 }
 
@@ -88,6 +94,18 @@ def run_tlc_in(sd, module, cfgname, wd, **kw):
         return L.run_tlc(module, cfgname, wd, **kw)
     finally:
         L.SPEC = old
+
+
+def ev_consts(ents=("e1",), clients=("c1", "c2"), policy="all", impl="ImplAsDesigned", auth="none",
+              stypes=("SOrd",), ctypes=(), modes=("all", "direct"), emits=2, ticks=2, idle=0, cframes=2, ops=1,
+              reconnects=0, init=("c1",), settle=2, spawn_comps='{{"A"}}'):
+    return {
+        "Ent": tla_set(ents), "Client": tla_set(clients), "Policy": f'"{policy}"', "Track": "FALSE",
+        "Timeout": "1000", "Impl": impl, "AuthMode": f'"{auth}"', "SEmitTypes": tla_set(stypes),
+        "CEmitTypes": tla_set(ctypes), "Modes": tla_set(modes), "MaxEmits": emits, "MaxTicks": ticks,
+        "MaxIdle": idle, "MaxCliFrames": cframes, "MaxOps": ops, "Reconnects": reconnects,
+        "InitConnected": tla_set(init), "SettleRounds": settle, "SpawnComps": spawn_comps,
+    }
 
 
 def write_cfg(sd, name, consts, invariants, props=(), view=True):
@@ -173,7 +191,9 @@ def extract_run(trace, run, out):
 
 
 def diff_field(d):
-    return d["field"] if d["kind"] == "enabled" else (d["kind"] + "." + d["field"] if d["kind"] != "srv" else "srv." + d["field"])
+    if d["kind"] == "enabled":
+        return d["field"]
+    return d["kind"] + "." + d["field"]
 
 
 def props_of_diff(d):
@@ -236,9 +256,9 @@ class CoreCheck:
         self.sd, self.open_switches = prepare_spec(self.wd)
 
     # ---- 1. exhaustive model checking of the designed protocol
-    def model_check(self, name, consts, invariants, props=(), workers=8, timeout=900):
-        cfg = write_cfg(self.sd, f"{name}.cfg", consts, invariants, props)
-        r = run_tlc_in(self.sd, "MC_Core", cfg, self.wd, workers=workers, timeout=timeout)
+    def model_check(self, name, consts, invariants, props=(), workers=8, timeout=900, module="MC_Core"):
+        cfg = write_cfg(self.sd, f"{name}.cfg", consts, invariants, props, view=(module == "MC_Core"))
+        r = run_tlc_in(self.sd, module, cfg, self.wd, workers=workers, timeout=timeout)
         self.states += r["distinct"]
         self.transitions += r["states"]
         self.mc_runs.append({"config": name, "constants": {k: str(v) for k, v in consts.items()},
@@ -250,9 +270,9 @@ class CoreCheck:
         return r
 
     # ---- 2. as-found model must violate
-    def must_find(self, name, consts, invariants, props=(), workers=8, timeout=600):
-        cfg = write_cfg(self.sd, f"{name}.cfg", consts, invariants, props)
-        r = run_tlc_in(self.sd, "MC_Core", cfg, self.wd, workers=workers, timeout=timeout)
+    def must_find(self, name, consts, invariants, props=(), workers=8, timeout=600, module="MC_Core"):
+        cfg = write_cfg(self.sd, f"{name}.cfg", consts, invariants, props, view=(module == "MC_Core"))
+        r = run_tlc_in(self.sd, module, cfg, self.wd, workers=workers, timeout=timeout)
         self.found_runs.append({"config": name, "impl": consts["Impl"], "found": r["violated"],
                                 "states_generated": r["states"], "wall_s": round(r["wall"], 1)})
         if not r["violated"]:
